@@ -20,8 +20,8 @@ CHECKS = {
          "Generated-input search: scheme spellings (case flips, backslash escapes, named/decimal/hex references with leading zeros, percent-encoding, leading/embedded whitespace and controls) in inline/reference links and images, autolinks, nested constructs, containers; a generator-health self-check requires unsafe mode to emit a dangerous URL in >= 15% of attack documents.",
          "Trusted: the browser model (x/net/html attribute decoding + WHATWG preprocessing) in oracle/html.go."),
  "C06": ("property-based testing (rapid), history-as-data state machine: Convert / Parse+Render / re-render kept trees / render trees parsed by another instance / caller-supplied Context on one long-lived instance; oracle: metamorphic - every output equals the canonical output of a brand-new instance",
-         "Generated call histories (2..14 operations over a pool of 2..6 documents, definer/user pairs for references, heading ids, footnotes, quotes, tables, fences) against a history-independence oracle.",
-         "Trusted: instances are created fresh per case; canonical output computed by a brand-new instance per document."),
+         "Generated call histories (2..14 operations over a pool of 2..6 documents, definer/user pairs for references, heading ids, footnotes, quotes, tables, fences, escaped attribute values, multi-line code spans, conversions into failing writers) against a history-independence oracle; in a quarter of the cases all one-shot conversions read their document from one recycled backing array.",
+         "Trusted: instances are created fresh per case; canonical output computed by a brand-new instance from a private copy of each document."),
  "C08": ("property-based testing (rapid), metamorphic relation Convert(q^n(D)) == blockquote-wrapped Convert(D) over TAB/CR-free documents x {core,GFM} x {safe,unsafe,xhtml}; exhaustive over the 639 TAB/CR-free spec examples with spec.json as the independent expected side",
          "Metamorphic relation from CommonMark 5.1 checked by byte equality on generated documents (soup, line soup, repository inputs, mutations), n-fold nesting up to 3, plus all spec examples against spec.json.",
          "Trusted: the quoting function q and spec.json."),
@@ -37,10 +37,10 @@ CHECKS = {
  "C12": ("property-based testing (rapid) + native go fuzzing (thorough) with the source in read-only mmap pages (read-only spare capacity) under debug.SetPanicOnFault, plus canary bytes on ordinary memory; all exported util transformers on read-only inputs",
          "Generated documents/configurations converted from PROT_READ memory: any store or append into the source faults and is reported; canaries around an ordinary copy are compared; a self-test proves the detector fires.",
          "Trusted: linux mmap/mprotect, Go's SetPanicOnFault; only Convert/Parse/Render/Lines.Value/Text and the listed util functions are exercised."),
- "C13": ("property-based testing (rapid) of operation sequences as data + bounded-exhaustive enumeration (all sequences of length <= 2 quick / <= 3 thorough over a pool of 4 nodes x 4 initial forests) against a list-of-children reference model; walker status scripts against a reference recursion",
+ "C13": ("property-based testing (rapid) of operation sequences as data + bounded-exhaustive enumeration (all sequences of length <= 2 quick / <= 3 thorough over a pool of 4 nodes x 4 initial forests) against a list-of-children reference model (nil, child and foreign references for InsertBefore, InsertAfter and ReplaceChild); walker status scripts against a reference recursion",
          "Model-based testing of the mutation API with the model enforcing the documented preconditions; exhaustive for short sequences.",
          "Trusted: the model in checks/c13; SortChildren judged by a validity predicate; nil reference only for InsertBefore."),
- "C14": ("fault injection: for generated documents every byte offset k (outputs <= 600 bytes) or a dense grid around multiples of 4096 (5-40 KiB outputs) at which the writer starts failing, x writer kinds (plain, caller bufio 16/4096/65536) x API (Convert, Parse+Render) x fault modes; oracle: error identity (errors.Is), prefix property, no panic",
+ "C14": ("fault injection: for generated documents every byte offset k (outputs <= 600 bytes) or a dense grid around multiples of 4096 (5-40 KiB outputs) at which the writer starts failing, x writer kinds (plain, caller bufio 16/4096/65536) x API (Convert, Parse+Render) x fault modes x identity of the injected error (private sentinel, io.ErrShortWrite plain and wrapped, io.EOF, io.ErrUnexpectedEOF, io.ErrClosedPipe, a Temporary/Timeout error); oracle: error identity (errors.Is), prefix property, no panic, termination (a fault run that hangs, reproduced in isolation, is a violation), a healthy conversion afterwards agrees with a fresh instance",
          "Enumeration of fault offsets per generated document: exhaustive for small outputs, boundary-dense for large ones.",
          "Trusted: the fault-injecting writer; the injected error is a sentinel compared with errors.Is."),
  "C15": ("property-based testing (rapid) with a heading grammar (repeated/empty/punctuation-only/non-ASCII/suffix-colliding texts, ATX and Setext, containers) x configurations with AutoHeadingID x conversion history on one instance; oracle over the tokenised output: one non-empty id per heading, pairwise distinct, equal to a fresh instance's ids",
@@ -55,13 +55,13 @@ CHECKS = {
  "C18": ("property-based testing (rapid) of call sequences as data on Reader and BlockReader + bounded-exhaustive enumeration (all sources of length <= 3 quick / <= 4 thorough over 7 symbols x all sequences of length <= 3 over 8 core calls x 3 reader shapes) against a flat cursor model; Segment arithmetic as pure functions",
          "Model-based testing against a cursor model (line, start, remaining padding).",
          "Trusted: the cursor model; LineOffset measured from the reader's own line head; BlockReader.Value compared for whole-line segments and unpadded ranges only."),
- "C19": ("property-based testing (rapid) of algebraic laws + bounded-exhaustive strings (length <= 4 quick / <= 5 thorough over 14 symbols) + all code points for per-rune laws; references built by construction; BytesFilter programs with colliding keys against Go maps",
+ "C19": ("property-based testing (rapid) of algebraic laws + bounded-exhaustive strings (length <= 4 quick / <= 5 thorough over 14 symbols) + all code points for per-rune laws; references built by construction; BytesFilter programs with keys colliding in a bucket and keys colliding in the full 64-bit hash against Go maps; URLEscape laws other than ASCII-purity are checked for every byte string, valid UTF-8 or not",
          "Laws (no forbidden bytes, round trips through html.UnescapeString, idempotence, preservation of %XX, UTF-8 validity, label equivalence under whitespace/SimpleFold) over generated and exhaustively enumerated inputs.",
          "Trusted: Go's html and unicode packages (pinned toolchain, Unicode 15.0)."),
  "C20": ("property-based testing (rapid) with probe block/inline parsers, paragraph/AST transformers and node renderers of generated priorities, behaviours and registration channels/orders; oracle: priority-sorted reference dispatch (log and output) and equality with the canonical sorted registration; trees with kinds nobody renders / created after renderer initialisation",
          "Generated registrations against a reference dispatcher written from the documented priority rules; a self-test pins the assumptions about built-in priorities.",
          "Trusted: the reference dispatcher in checks/c20; built-in priorities as documented."),
- "C02": ("property-based testing (rapid): constructed-document model with reference renderer and spelling-choosing serialiser; exhaustive enumeration of the 652 spec examples x licensed rewrites against spec.json; delimiter soup against a reference implementation of the spec's delimiter-run algorithm (validated on 103 spec examples at start-up)",
+ "C02": ("property-based testing (rapid): constructed-document model with reference renderer and spelling-choosing serialiser; exhaustive enumeration of the 652 spec examples x licensed rewrites against spec.json; delimiter soup against a reference implementation of the spec's delimiter-run algorithm (validated on 103 spec examples at start-up), on one line and over several lines inside containers spelled with every equivalent prefix",
          "Three independent oracles, none of which asks goldmark: spec.json's expected HTML for rewritten examples (exhaustive), HTML known by construction for generated document models under any choice of equivalent spellings, and a reference emphasis algorithm for delimiter soup. Comparison modulo whitespace next to block tags (the slack of the spec's own comparison). The serialiser also emits near-miss spellings with an equally fixed meaning (continuation lines indented >= 5 columns that look like block starts, title-like lines followed by text after a definition, a literal backslash before a two-space hard break, labels spread over two lines).",
          "Trusted: the document model, reference renderer and serialiser (checks/c02/model,gen,ser), the reference emphasis algorithm (self-tested against spec.json), spec.json itself. The serialiser only emits spellings whose meaning is fixed by construction."),
  "C07": ("generated concurrent workloads (rapid) on fresh shared instances under the Go race detector (-race, GORACE=halt_on_error) with GOMAXPROCS variation and injected runtime.Gosched yields; per-goroutine output equality with the sequential output; fresh-process first-use cases by re-executing the test binary",
